@@ -14,6 +14,8 @@ ops (state = the current board table, set by `reset`):
   ac <asc|desc> <kwhex>                      cache.FindBoardAutoCompleteStartIdx
   page <name|class> <asc|desc> <n> <cursor>  bbs.LoadGeneralBoards     cursor = `-` | clshex:namehex
   apage <asc|desc> <n> <kwhex> <cursor>      bbs.LoadAutoCompleteBoards
+  dpage <name|class> <asc|desc> <n> <cursor> bbs.LoadGeneralBoardDetails
+  dwalk <name|class> <asc|desc> <n>          client loop over bbs.LoadGeneralBoardDetails
   walk <name|class> <asc|desc> <n>           client loop over bbs.LoadGeneralBoards
   awalk <asc|desc> <n> <kwhex>               client loop over bbs.LoadAutoCompleteBoards
 -/
@@ -142,6 +144,14 @@ def stepC11 (st : St) (ws : List String) : St × String :=
     match parseDir d, n.toInt?, parseHex k, parseCursor c with
     | some d, some n, some k, some c => (st, showR (showPage .name) (loadAuto t (normCursor .name c) n k d))
     | _, _, _, _ => (st, "bad-op")
+  | ["dpage", b, d, n, c] =>
+    match parseBy b, parseDir d, n.toInt?, parseCursor c with
+    | some b, some d, some n, some c => (st, showR (showPage b) (loadDetails t b (normCursor b c) n d))
+    | _, _, _, _ => (st, "bad-op")
+  | ["dwalk", b, d, n] =>
+    match parseBy b, parseDir d, n.toInt? with
+    | some b, some d, some n => (st, showR showPages (walkDetails t b n d))
+    | _, _, _ => (st, "bad-op")
   | ["walk", b, d, n] =>
     match parseBy b, parseDir d, n.toInt? with
     | some b, some d, some n => (st, showR showPages (walkGeneral t b n d))
